@@ -89,6 +89,8 @@ static inline int64_t pgmv_f2i_int64_t(double x) { return (int64_t)x; }
   static inline void vec_##T##_emplace_back(vec_##T *v, T x) { __CPROVER_assume(v->size < v->cap); v->data[v->size] = x; v->size = v->size + 1; } \
   static inline void vec_##T##_resize(vec_##T *v, size_t n) { __CPROVER_assume(n <= v->cap); v->size = n; } \
   static inline void vec_##T##_reserve(vec_##T *v, size_t n) { (void)v; (void)n; } \
+  /* resize of a LOCAL vector that may grow: a larger buffer is a new allocation whose contents are unspecified (over-approximates the preserved prefix) */ \
+  static inline void vec_##T##_resize_any(vec_##T *v, size_t n) { if (n > v->cap) { T *pgmv_nd = (T *)malloc(n * sizeof(T)); __CPROVER_assume(pgmv_nd != 0); v->data = pgmv_nd; v->cap = n; } v->size = n; } \
   static inline void vec_##T##_shrink_to_fit(vec_##T *v) { (void)v; } \
   static inline void vec_##T##_emplace_back_default(vec_##T *v) { T pgmv_zero = {0}; __CPROVER_assume(v->size < v->cap); v->data[v->size] = pgmv_zero; v->size = v->size + 1; } \
   static inline vec_##T vec_##T##_new(size_t n) { vec_##T v; v.data = (T *)calloc((n ? n : 1), sizeof(T)); __CPROVER_assume(v.data != 0); v.size = n; v.cap = (n ? n : 1); return v; }
